@@ -557,12 +557,8 @@ def run(repo, chk):
         if s_:
             sy = [src(n.value) for n in ast.walk(ms['set']) if isinstance(n, ast.Yield)] if 'set' in ms else []
             chk.expect(sy == [s_], 'C09.M4', f'{cls}.set', f'{sy}', ASM)
-    sset = [n for k, n in repo.methods(ASM, 'State').items() if k == 'set']
-    chk.expect(bool(sset) and 'yield Mov(self.immed, source)' in src(sset[0]) and 'if source != self' in src(sset[0]), 'C09.M4',
-               'State.set', 'Mov unless the source is the slot itself', ASM)
-    to = [n for k, n in repo.methods(ASM, 'Accessor').items() if k == 'to']
-    chk.expect(bool(to) and 'result = (yield from self.get(r_out))' in src(to[0]) and 'yield from State(r_out).set(result)' in src(to[0]),
-               'C09.M4', 'Accessor.to', 'get then move into the register', ASM)
+    # State.set / Accessor.to: decided by the interpreted accessor tabulation in rendering() (State.set, State.set self,
+    # State.to, Indirect.to, IntLiteral.to, aliased cases)
     for p, ev in gf.inlined('eval_expr'):
         arm = F.arm_of(ev, len(ev) - 1)
         if arm.startswith('IntToByte') and p.outcome != 'raise':
